@@ -653,6 +653,7 @@ func judge(run verdictSink, s *seqSpec, res *seqResult) {
 			w["request_opid"] = r.opid
 			w["request_connection"] = r.conn
 			w["request_frame_hex"] = hexCap(r.frame, 1500)
+			w["request_header_block"] = r.hdrShape
 			var reps []string
 			for _, f := range r.replies {
 				reps = append(reps, hexCap(f, 1500))
@@ -755,6 +756,16 @@ func judge(run verdictSink, s *seqSpec, res *seqResult) {
 		if how == "idle" {
 			sig, how2 = "C14:request-consumed-without-reply:", "consumed everything sent on connection %d and is parked waiting for the size prefix of a next frame (two goroutine dumps 1.5 s apart, no reply in between; a simple server works a connection off sequentially)"
 		}
+		if next != nil && next.hdrShape != "plain" && !next.taints {
+			sig, after = "C14:request-with-"+next.hdrShape+"-header-unanswered:", "-"
+			run.Violation(sig+s.leg, fmt.Sprintf("the server "+how2+"; the first unanswered request (%s) has a well-formed header block of the shape %q; last answered request %s, %d two-way requests never answered", c, nk, next.hdrShape, func() string {
+				if lastAnswered == nil {
+					return "none"
+				}
+				return lastAnswered.kindName()
+			}(), unanswered), witness(next, map[string]interface{}{"connection": c}))
+			continue
+		}
 		run.Violation(sig+s.leg+":"+s.proto+":after-"+after,
 			fmt.Sprintf("the server "+how2+"; the last answered request was %s, the next one (%s) and %d two-way requests in all were never answered", c, after, nk, unanswered),
 			witness(next, map[string]interface{}{"connection": c, "last_answered_kind": after, "last_answered_frame_hex": func() string {
@@ -828,7 +839,9 @@ func judge(run verdictSink, s *seqSpec, res *seqResult) {
 			continue
 		}
 		if r.sendErr != "" {
-			if s.leg == "http" {
+			if s.leg == "http" && r.hdrShape != "plain" && r.httpStatus >= 500 {
+				run.Violation("C14:request-with-"+r.hdrShape+"-header-refused:"+s.leg, "a request whose (well-formed) header block has the shape \""+r.hdrShape+"\" was answered with a transport-level failure instead of a reply frame: "+r.sendErr, witness(r, nil))
+			} else if s.leg == "http" {
 				run.Violation("C14:transport-error:"+s.leg+":"+r.kindName(), "instead of a reply frame the server answered with a transport-level failure: "+r.sendErr, witness(r, nil))
 			} else if !r.sentinel {
 				run.Violation("C14:connection-lost:"+s.leg+":"+r.kindName(), "the request could not be sent, the server ended the connection: "+r.sendErr, witness(r, nil))
@@ -860,6 +873,10 @@ func judge(run verdictSink, s *seqSpec, res *seqResult) {
 				}
 				if s.leg == "http" && r.empties > 0 {
 					what += "; the HTTP response was the empty frame"
+				}
+				if n == 0 && r.hdrShape != "plain" && !r.taints {
+					run.Violation("C14:request-with-"+r.hdrShape+"-header-unanswered:"+s.leg, "a request whose (well-formed) header block has the shape \""+r.hdrShape+"\": "+what, witness(r, nil))
+					break
 				}
 				run.Violation("C14:reply-count:"+s.leg+":"+r.kindName(), what, witness(r, nil))
 			}
